@@ -706,6 +706,7 @@ func main() {
 	if r.Replay != "" {
 		meanStage(r)
 		closedForms(r)
+		sizeStage(r, false)
 		cameraStage(r)
 		transformStage(r)
 		compositeStage(r)
@@ -713,6 +714,7 @@ func main() {
 	}
 	r.Isolate("sample-means", func() { meanStage(r) })
 	r.Isolate("closed-forms", func() { closedForms(r) })
+	r.Isolate("image-sizes", func() { sizeStage(r, r.Thorough()) })
 	r.Isolate("cameras", func() { cameraStage(r) })
 	r.Isolate("transforms", func() { transformStage(r) })
 	r.Isolate("composites", func() { compositeStage(r) })
